@@ -116,6 +116,12 @@ class C12(Check):
         plan["replay"] = rng.randrange(n_recs)
         plan["select"] = rng.choice(["name", "props", "both", "none"])
         plan["via_command"] = rng.random() < 0.2
+        # the usual workflow: a discovery run found the endpoints (and some others) before any of them was scanned
+        plan["discovery"] = None
+        if rng.random() < 0.35:
+            urls = [f"tcp-lines://ecu:{e['port']}" for e in ecus] + [f"tcp-lines://other:{k}" for k in range(rng.choice([0, 1, 3]))]
+            rng.shuffle(urls)
+            plan["discovery"] = urls
         plan["db_lat"] = rng.choice([0.0001, 0.002, 0.02])
         plan["net_seed"] = rng.getrandbits(30)
         return plan
@@ -126,6 +132,10 @@ class C12(Check):
         if plan["via_command"]:
             p = copy.deepcopy(plan)
             p["via_command"] = False
+            yield p
+        if plan.get("discovery"):
+            p = copy.deepcopy(plan)
+            p["discovery"] = None
             yield p
         if len(plan["recs"]) > 1:
             p = copy.deepcopy(plan)
@@ -191,6 +201,17 @@ class C12(Check):
                 await asyncio.sleep(0)
                 servers[e["name"]] = srv
                 lossy[e["name"]] = tr_
+            if plan.get("discovery"):
+                from gallia.command.base import datetime as _dt0
+                from datetime import UTC as _UTC0
+
+                db0 = DBHandler(dbpath)
+                await db0.connect()
+                await db0.insert_run_meta(script="simcheck.c12.Discovery", config=RecConfig(db=dbpath), start_time=_dt0.now(_UTC0).astimezone(), path=None)
+                await db0.insert_discovery_run("tcp-lines")
+                for u in plan["discovery"]:
+                    await db0.insert_discovery_result(u)
+                await db0.disconnect()
             for r in recs:
                 e = plan["ecus"][r["ecu"]]
                 # a fresh ECU power-up per recording: default state
@@ -236,6 +257,19 @@ class C12(Check):
         if out["kind"] != "return":
             if out["kind"] == "hung":
                 violation(res, "C12/liveness", "C12/liveness:record", f"recording never finished: {out['pending']}")
+                return
+            exc = out.get("exc")
+            tb = getattr(exc, "__traceback__", None)
+            files = []
+            while tb is not None:
+                files.append(tb.tb_frame.f_code.co_filename)
+                tb = tb.tb_next
+            while files and "/simkit/" in files[-1]:
+                files.pop()  # the seam fakes (sqlite engine, streams) only pass on what the real engine / peer said
+            where = files[-1] if files else ""
+            if "/gallia/" in where and "/verif/" not in where:
+                # fault-free recording through gallia's own DBHandler / client / server: an exception from there is gallia's
+                violation(res, "C12/record", f"C12/record:exception:{type(exc).__name__}", f"recording a run failed inside gallia ({where.rsplit('/gallia/', 1)[-1]}): {exc!r}")
                 return
             raise RuntimeError(f"recording failed: {out}")
         world.sql.close_all()
@@ -354,6 +388,8 @@ class C12(Check):
         bump(res["faults"], "config_" + cfgname)
         if len(recs) > 1:
             bump(res["faults"], "multi_recording_db")
+        if plan.get("discovery"):
+            bump(res["faults"], "addresses_known_from_discovery_run")
 
 
 def make() -> Check:
